@@ -286,23 +286,57 @@ def read_env(src, expr, skip_envs=(), tolerance=0, mode=MODE_NON_MATH):
     >>> read_env(buf, TexNamedEnv('foobar'), tolerance=1)  # error tolerance
     TexNamedEnv('foobar', [' tingtang '], [])
     """
-    contents, args = [], None
+    contents, end_name = [], None
     while src.hasNext():
         if src.peek().category == TC.Escape:
             name, _ = make_read_peek(read_command)(
                 src, 0, 0, skip=1, tolerance=tolerance, mode=mode)
             if name == 'end':
-                args = make_read_peek(read_env_end)(
-                    src, tolerance=tolerance, mode=mode)
+                end_name = peek_env_end_name(src)
                 break
         contents.append(read_expr(src, skip_envs=skip_envs, tolerance=tolerance, mode=mode))
-    error = not src.hasNext() or not args or args[0].string != expr.name
+    error = not src.hasNext() or end_name is None or end_name != expr.name
     if error and tolerance == 0:
         unclosed_env_handler(src, expr, src.peek((0, 6)))
     elif not error:
         read_env_end(src, tolerance=tolerance, mode=mode)
     expr.append(*contents)
     return expr
+
+
+def peek_env_end_name(src):
+    r"""Name in the `\end{name}` that starts at the cursor, without parsing it.
+
+    The tokens between the braces are only joined, never parsed: parsing the
+    name group here and again when it is consumed (or, for a mismatched
+    `\end`, by the enclosing reader) doubles the work at every level of
+    `\begin{a}\end{\begin{a}\end{...` chains.
+
+    :param Buffer src: a buffer of tokens, positioned at the escape of `\end`
+    :return: the text between the braces, or None if there is no closed group
+    :rtype: Union[None,str]
+
+    For the tokens of `\end\n{foo{b}ar}x` this gives `foo{b}ar`; for `\end{foo`
+    (no closing brace) it gives None.
+    """
+    j = 2
+    if src.peek(j) is not None and src.peek(j).category == TC.MergedSpacer:
+        j += 1
+    if src.peek(j) is None or src.peek(j).category != TC.GroupBegin:
+        return None
+    depth, pieces = 1, []
+    while depth:
+        j += 1
+        token = src.peek(j)
+        if token is None:
+            return None
+        if token.category == TC.GroupBegin:
+            depth += 1
+        elif token.category == TC.GroupEnd:
+            depth -= 1
+        if depth:
+            pieces.append(str(token))
+    return ''.join(pieces)
 
 
 def read_env_end(src, tolerance=0, mode=MODE_NON_MATH):
